@@ -45,7 +45,7 @@ def run():
 
     # Tie B: frame_of vs RQ Compute.window; emit_frame vs the OVER (...) text -- exhaustive
     srcs = []                  # every program any stream compiles: replayed through the back-end hooks below
-    corr_srcs = C.run(ck, supports_from(info))
+    corr_srcs = C.run(ck, supports_from(info), full=broken)
     # Tie B': scope_run (flatten.rs partition / frame bookkeeping) vs RQ Compute.window of nested programs
     srcs += C.run_scope(ck)
 
@@ -59,11 +59,11 @@ def run():
     stream("empty-range", S.with_instances(ck, S.empty_range_cases(ck), n_inst=1))
     stream("range-x", S.with_instances(ck, S.range_x_cases(ck), n_inst=mult))
     stream("sort-key", S.with_instances(ck, S.sortdirect_cases(ck), n_inst=1))
-    stream("random", S.random_cases(ck, ck.n(1000, 8000) * mult))
+    stream("random", S.random_cases(ck, ck.n(800, 8000) * mult))
 
     # Tie C: the back end's own functions, observed through the verif hooks on every compile above
     # thorough (and search mode, when the proof step is broken): every compile of every stream; quick: the directed programs,
-    # a third of the end-to-end programs (every sixth for the second target) and a twentieth of the exhaustive
+    # a third of the end-to-end programs (every sixth for the second target) and a tenth of the
     # correspondence programs, whose pipelines differ in frame arguments only -- drawn with the run's seed
     allsrc = list(dict.fromkeys(srcs))
     corr_only = [s for s in dict.fromkeys(corr_srcs) if s not in set(allsrc)]
@@ -73,7 +73,7 @@ def run():
         ck.rng.shuffle(allsrc)
         ck.rng.shuffle(corr_only)
         pairs = [(s, targets[0]) for s in allsrc[:len(allsrc) // 3]] + [(s, targets[1]) for s in allsrc[:len(allsrc) // 6]] \
-            + [(s, targets[0]) for s in corr_only[:len(corr_only) // 20]]
+            + [(s, targets[0]) for s in corr_only[:len(corr_only) // 10]]
     pairs = [(s, t) for s in H.REORDER_DIRECTED for t in targets] + pairs
     ck.coverage["hook_streams_sampling"] = {"programs": len(allsrc), "correspondence_programs": len(corr_only), "logged_compiles": len(pairs), "all": bool(ck.thorough or broken)}
     ev, n_comp, n_ok = H.collect_all(pairs)
@@ -92,7 +92,7 @@ def run():
         "results are compared as multisets (sequence order is C03's clause; order sensitivity enters through take after a sort by a windowed value); column names are C05's clause",
         "sql.generic output is executed on SQLite",
     ]
-    ck.finish(TRUSTED, "frame-corr = exhaustive: 12 functions x sorted/unsorted x grouped/ungrouped x {rows,range} x bounds {open,-2..2}^2 (incl. empty ranges: model WEmptyRange vs the compile error of both entry points) + rolling -1..3 + expanding + argument combinations (which argument wins, rejection before expanding/rolling, the spelling 0..-1, i64 edges), model (kind,start,end) vs RQ Compute.window and model clause text vs OVER (...) text; the same over a relation literal without rows, executed. "
+    ck.finish(TRUSTED, "frame-corr (thorough tier: exhaustive; quick tier: every argument set for SUM / LAST_VALUE / RANK, every fourth -- rotating with the seed -- for the other nine functions): 12 functions x sorted/unsorted x grouped/ungrouped x {rows,range} x bounds {open,-2..2}^2 (incl. empty ranges: model WEmptyRange vs the compile error of both entry points) + rolling -1..3 + expanding + argument combinations (which argument wins, rejection before expanding/rolling, the spelling 0..-1, i64 edges), model (kind,start,end) vs RQ Compute.window and model clause text vs OVER (...) text; the same over a relation literal without rows, executed. "
               "scope-corr = 13 directed + random nestings (depth <= 4) of group / window / join-argument bodies: model scope_run (partition, frame per column) vs RQ Compute.window and vs the OVER text. "
               "hook streams: thorough tier = every compile of every stream; quick tier = 25 directed programs + a seeded sample (a third of the end-to-end programs, a twentieth of the correspondence programs), one logged compile each feeding all three. reorder-corr = every call of preprocess.rs reorder during those compiles (hook verif:preprocess): Model/WinReorder.v reorder on the (kind, complexity) abstraction of the input vs the output the implementation returned, item by item. "
               "split-corr = every call of anchor.rs split_off_back during the same compiles (hook verif:split_off_back): the number of transforms Model/WinAtomic.v walk keeps in the SELECT vs where the implementation stopped; a difference is a violation when a windowed column definition lies at or between the two stopping points, counted otherwise. "
